@@ -3927,9 +3927,16 @@ search_state_new(void) {
 
 static void
 search_postfix_clear(struct evdns_base *base) {
+	/* ndots is an option of its own ("options ndots:n"), not a property
+	 * of the list of domains: it survives clearing the list */
+	const int ndots = base->global_search_state ?
+	    base->global_search_state->ndots : 1;
+
 	search_state_decref(base->global_search_state);
 
 	base->global_search_state = search_state_new();
+	if (base->global_search_state)
+		base->global_search_state->ndots = ndots;
 }
 
 /* exported function */
